@@ -7,6 +7,7 @@ import ast
 from tiv.astutil import body_walk, call_name, dotted, enclosing_stmt, norm, short, stores_in, walk_local
 from tiv.cfg import CFG
 from tiv.mutate import M
+from tiv.sem import origin
 
 RULES = {
     "L1": "lock_tty_wrapper is one `with` whose items are TWO loads of the module-global `_tty_lock` (not a value captured "
@@ -79,8 +80,8 @@ def run(ck, m):
     # sibling forms
     n_sib = 0
     for rel in (U,):
-        for q, fn in m.file(rel).defs.items():
-            if not isinstance(fn, ast.FunctionDef) or q in ("_process_start_wrapper", "_process_run_wrapper", "lock_tty.lock_tty_wrapper"):
+        for rel_, q, fn in m.functions():
+            if rel_ != rel or not isinstance(fn, ast.FunctionDef) or q in ("_process_start_wrapper", "_process_run_wrapper", "lock_tty.lock_tty_wrapper"):
                 continue
             for n in body_walk(fn):
                 if isinstance(n, ast.With):
@@ -114,8 +115,9 @@ def run(ck, m):
                   stmt=f"{fn.name}: {short(c, 80)}")
     ck.expect(n_io >= 12, f"expected >= 12 terminal I/O calls on _tty_fd, found {n_io}")
     # who else touches `_tty_fd` from other modules
-    for rel, f in m.files.items():
-        for n in ast.walk(f.tree):
+    for rel in m.files:
+
+        for n in m.walk(rel):
             if isinstance(n, ast.Attribute) and n.attr == "_tty_fd":
                 ck.ob("L2", enclosing_stmt(n), False, f"`{norm(n)}` accesses the terminal descriptor outside utils.py",
                       stmt=f"{rel}: {short(enclosing_stmt(n), 80)}")
@@ -128,8 +130,9 @@ def run(ck, m):
                 imports[a.asname or a.name] = f"{st.module}.{a.name}"
     for lk in ("_tty_lock", "_cell_size_lock"):
         writers = []
-        for rel, f in m.files.items():
-            for t, st in stores_in(f.tree, local=False):
+        for rel, _q, t, st in m.stores():
+
+            if True:
                 if (isinstance(t, ast.Name) and t.id == lk and rel == U) or (isinstance(t, ast.Attribute) and t.attr == lk and not (
                         isinstance(t.value, ast.Name) and t.value.id == "self")):
                     q = getattr(st, "_q", "") or "<module>"
@@ -154,7 +157,8 @@ def run(ck, m):
     start = m.get(U, "_process_start_wrapper")
     for t, st in stores_in(ast.Module(body=start.body, type_ignores=[])):
         if isinstance(t, ast.Name) and t.id == "_tty_lock":
-            ctor = call_name(st.value) if isinstance(st.value, ast.Call) else None
+            val = origin(start, st.value)
+            ctor = call_name(val) if isinstance(val, ast.Call) else None
             ck.ob("L3", st, imports.get(ctor or "", "") == "multiprocessing.RLock",
                   f"the process-shared lock must be multiprocessing.RLock(); found {short(st.value, 40)}", stmt=st)
             inside = any(isinstance(a, ast.With) and "_tty_lock" in _with_items(a) for a in _anc(st))
@@ -167,8 +171,8 @@ def run(ck, m):
     # ---- L6 ---------------------------------------------------------------------------
     locked_fns = {fn.name for rel, q, fn in m.functions() if rel == U and "lock_tty" in _decorators(fn)}
     n6 = 0
-    for q, fn in m.file(U).defs.items():
-        if not isinstance(fn, ast.FunctionDef) or q in ("_process_start_wrapper", "lock_tty.lock_tty_wrapper"):
+    for rel_, q, fn in m.functions():
+        if rel_ != U or not isinstance(fn, ast.FunctionDef) or q in ("_process_start_wrapper", "lock_tty.lock_tty_wrapper"):
             continue
         ws = [n for n in body_walk(fn) if isinstance(n, ast.With) and "_tty_lock" in _with_items(n)]
         if not ws:
